@@ -118,6 +118,20 @@ def split_cases(out_lines):
 # ---------------------------------------------------------------------------------------------
 # parallel map with per-case timeout protection
 # ---------------------------------------------------------------------------------------------
+def bits(rnd, w):
+    """`w` random bits, biased towards the values a uniform draw never hits when `w` is large: about a
+    third of the draws are 0, all ones, 1, only the top bit, or an alternating pattern. Consumes the
+    random stream exactly like `rnd.getrandbits(w)` (the choice is derived from the drawn value)."""
+    v = rnd.getrandbits(w)
+    if w < 2:
+        return v
+    h = (v * 2654435761 + w * 40503) >> 5
+    if h % 10 >= 3:
+        return v
+    full = (1 << w) - 1
+    return (0, full, 1, 1 << (w - 1), full // 3)[(h // 10) % 5]
+
+
 def from_code_under_test(e):
     """the exception passed through amaranth_soc and was not raised by a harness frame"""
     tb = traceback.extract_tb(e.__traceback__)
